@@ -232,17 +232,17 @@ theorem joined_limit_wrap_needed :
 
 /-! ## the nest decision -/
 
-/-- `_should_nest_selectable` wraps exactly when the property needs it — as long as the
-    row limit is not given by `fetch()` -/
-theorem should_nest_complete_without_fetch :
-    ∀ (ej mr hl ho di gb : Bool), shouldNest ej mr hl ho false di gb = nestNeeded ej mr hl ho false di gb := by
+/-- **should_nest_complete**: `_should_nest_selectable` wraps exactly when the property needs
+    it — for LIMIT, OFFSET and FETCH alike, DISTINCT and GROUP BY -/
+theorem should_nest_complete :
+    ∀ (ej mr hl ho hf di gb : Bool), shouldNest ej mr hl ho hf di gb = nestNeeded ej mr hl ho hf di gb := by
   decide
 
-/-- **should_nest_misses_fetch** (finding F23): with `fetch(n)` and no offset the code does
-    not wrap although a multi-row eager join is present; by `joined_limit_wrap_needed` the
-    un-wrapped plan truncates collections. -/
+/-- sensitivity (the rule before fix 63056e6, finding F23): with `fetch(n)` and no offset the
+    old rule did not wrap although a multi-row eager join is present; by
+    `joined_limit_wrap_needed` the un-wrapped plan truncates collections. -/
 theorem should_nest_misses_fetch :
-    ∃ (ej mr hl ho hf di gb : Bool), nestNeeded ej mr hl ho hf di gb = true ∧ shouldNest ej mr hl ho hf di gb = false :=
+    ∃ (ej mr hl ho hf di gb : Bool), nestNeeded ej mr hl ho hf di gb = true ∧ shouldNestOld ej mr hl ho hf di gb = false :=
   ⟨true, true, false, false, true, false, false, by decide, by decide⟩
 
 /-! ## the concrete ORDER BY commutes with WHERE -/
